@@ -221,6 +221,78 @@ def run(repo: Repo, rep: Report) -> None:
         if fn in eff.funcs:
             check_entry(eff, rep, "C13.g-views-pure", fn, src, fn.split(".", 1)[1])
 
+    # ------------------------------------------------- no shared mutable class state is changed by a read
+    rep.rule("C13.h-no-shared-class-state-mutated",
+             "no method of a serializer class mutates in place a list/dict/set that is defined at class level (in the class or a base class) - "
+             "`self.X += [...]`, `self.X.append(...)`, `self.X[k] = v` without first giving the instance its own X: such state is shared by every "
+             "instance, so one serialisation would change the output of all later ones", floor=1)
+    cls_mut: dict[str, dict[str, str]] = {}
+    ser_mods = [m for n_, m in repo.modules.items() if n_.startswith("rdflib.plugins.serializers.") or n_ == "rdflib.serializer"]
+    for m in ser_mods:
+        for q, node in m.defs.items():
+            if isinstance(node, ast.ClassDef):
+                for st in node.body:
+                    if isinstance(st, (ast.Assign, ast.AnnAssign)) and getattr(st, "value", None) is not None:
+                        t = st.targets[0] if isinstance(st, ast.Assign) else st.target
+                        v = st.value
+                        if isinstance(t, ast.Name) and (isinstance(v, (ast.List, ast.Dict, ast.Set)) or (isinstance(v, ast.Call) and norm(v.func) in ("list", "dict", "set", "defaultdict", "OrderedDict"))):
+                            cls_mut.setdefault("%s.%s" % (m.name, q), {})[t.id] = norm(v)[:40]
+    n_checked = 0
+    for m in ser_mods:
+        for q, node in m.defs.items():
+            if not isinstance(node, ast.ClassDef):
+                continue
+            full = "%s.%s" % (m.name, q)
+            shared = {}
+            for b in typed.mro(full):
+                shared.update(cls_mut.get(b, {}))
+            if not shared:
+                continue
+            for mname, f in m.methods(q).items():
+                own = set()
+                for n_ in own_nodes(f):
+                    # plain (re)assignment gives the instance its own object
+                    if isinstance(n_, (ast.Assign, ast.AnnAssign)) and getattr(n_, "value", None) is not None:
+                        for t in (n_.targets if isinstance(n_, ast.Assign) else [n_.target]):
+                            if isinstance(t, ast.Attribute) and isinstance(t.value, ast.Name) and t.value.id == "self" and t.attr in shared:
+                                v = n_.value
+                                fresh = not (isinstance(v, ast.Attribute) and v.attr == t.attr)
+                                if fresh:
+                                    own.add((t.attr, n_.lineno))
+                for n_ in own_nodes(f):
+                    attr = None
+                    if isinstance(n_, ast.AugAssign) and isinstance(n_.target, ast.Attribute) and isinstance(n_.target.value, ast.Name) and n_.target.value.id == "self":
+                        attr = n_.target.attr
+                    if isinstance(n_, ast.Call) and isinstance(n_.func, ast.Attribute) and n_.func.attr in ("append", "extend", "insert", "update", "add", "setdefault", "pop", "remove", "clear", "sort") \
+                            and isinstance(n_.func.value, ast.Attribute) and isinstance(n_.func.value.value, ast.Name) and n_.func.value.value.id == "self":
+                        attr = n_.func.value.attr
+                    if isinstance(n_, ast.Assign) and any(isinstance(t, ast.Subscript) and isinstance(t.value, ast.Attribute) and isinstance(t.value.value, ast.Name)
+                                                          and t.value.value.id == "self" for t in n_.targets):
+                        attr = [t.value.attr for t in n_.targets if isinstance(t, ast.Subscript) and isinstance(t.value, ast.Attribute)][0]
+                    if attr is None or attr not in shared:
+                        continue
+                    n_checked += 1
+                    # the instance got its own object earlier in this method or in __init__/reset (which run per serialisation)
+                    init_own = False
+                    for setup in ("__init__", "reset", "preprocess"):
+                        for b in typed.mro(full):
+                            bm, _, bc = b.rpartition(".")
+                            if bm in repo.modules and repo.modules[bm].has(bc + "." + setup):
+                                sf = repo.modules[bm].func(bc + "." + setup)
+                                for a in own_nodes(sf):
+                                    if isinstance(a, (ast.Assign, ast.AnnAssign)) and getattr(a, "value", None) is not None:
+                                        for t in (a.targets if isinstance(a, ast.Assign) else [a.target]):
+                                            if norm(t) == "self." + attr and not (isinstance(a.value, ast.Attribute) and a.value.attr == attr) and not (setup == mname and a.lineno >= n_.lineno):
+                                                init_own = True
+                    local_own = any(a == attr and ln < n_.lineno for a, ln in own)
+                    ok = init_own or local_own
+                    rep.ob("C13.h-no-shared-class-state-mutated", m, "%s.%s" % (q, mname), n_, ok,
+                           "the instance has its own %s" % attr if ok else
+                           "self.%s is the class-level %s shared by all %s instances (and subclasses): this in-place change persists, so the same graph serialises differently afterwards" % (attr, shared[attr], q), node=n_)
+    rep.info["class_level_mutables_in_serializers"] = {k: sorted(v) for k, v in cls_mut.items()}
+    if n_checked == 0:
+        rep.ob("C13.h-no-shared-class-state-mutated", ser_mods[0], "<serializers>", "no in-place mutation of a class-level container through self", True, "%d class-level containers, none mutated via self" % sum(len(v) for v in cls_mut.values()), node=None)
+
     # ------------------------------------------------- store read methods
     rep.rule("C13.f-store-reads-dont-write",
              "the read methods of the in-memory stores (triples, __len__, contexts, triples_choices, namespaces, prefix, "
